@@ -430,7 +430,7 @@ impl C08 {
                         _ => format!("enum E{} {} : A endenum", rng.below(3), v),
                     })
                 }
-                _ => s.push_str(rng.pick_str(&["1 0 /", "1 0 rem", "-170141183460469231731687303715884105728 -1 /", "-170141183460469231731687303715884105728 abs", "[ 1 ] -9223372036854775808 nth", "\"ff\" ^hex str>number", "1 128 bsl", "1 -1 bsr", "99999 random-bits drop", "1 65536 int! drop", "-1 3 uint! drop", "3 4 d2-resize", "0 0 d2-resize", "7 random-bits"])),
+                _ => s.push_str(rng.pick_str(&["3 0 do 1 0 / loop", "2 0 do 2 0 do nil neg loop loop", "[ 7 8 ] foreach \"s\" neg loop", "I", "J", "K", "4294967296 4294967296 d2-resize 0 0 d2-data", "18446744073709551615 2 d2-resize 1 1 d2-data", "0 0 d2-data", "1 0 /", "1 0 rem", "-170141183460469231731687303715884105728 -1 /", "-170141183460469231731687303715884105728 abs", "[ 1 ] -9223372036854775808 nth", "\"ff\" ^hex str>number", "1 128 bsl", "1 -1 bsr", "99999 random-bits drop", "1 65536 int! drop", "-1 3 uint! drop", "3 4 d2-resize", "0 0 d2-resize", "7 random-bits"])),
             }
             s.push_str(rng.pick_str(&[" ", " ", " ", "\n", "\t", "\r\n", ""]));
         }
